@@ -62,12 +62,13 @@ class HistogramCollection(Container[Histogram1D], ObjectWithBinning):
         return len(self.histograms)
 
     def copy(self) -> "HistogramCollection":
-        # TODO: The binnings are probably not consistent in the copies
-        binning_copy = self.binning.copy()
-        histograms = [h.copy() for h in self.histograms]
-        for histogram in histograms:
-            histogram._binning = binning_copy
-        return HistogramCollection(*histograms, title=self.title, name=self.name)
+        # Every member keeps the binning copy of its own (a shared one would grow
+        # under all of them when one adaptive member is filled).
+        a_copy = HistogramCollection(
+            binning=self.binning.copy(), title=self.title, name=self.name
+        )
+        a_copy.histograms = [h.copy() for h in self.histograms]
+        return a_copy
 
     @property
     def binning(self) -> BinningBase:
@@ -93,7 +94,7 @@ class HistogramCollection(Container[Histogram1D], ObjectWithBinning):
         # TODO: Rename!
         init_kwargs: Dict[str, Any] = {"axis_name": self.axis_name}
         init_kwargs.update(kwargs)
-        histogram = Histogram1D(binning=self.binning, name=name, **init_kwargs)
+        histogram = Histogram1D(binning=self.binning.copy(), name=name, **init_kwargs)
         histogram.fill_n(values, weights=weights, dropna=dropna)
         self.histograms.append(histogram)
         return histogram
